@@ -11,7 +11,9 @@ from pcommon import *
 
 MANIFEST_ENTRY = {
     "category": "proof",
-    "text": "Lean 4 theorems about the evaluation model (Model/Actions.lean): arguments in rhs order, named matches "
+    "text": "Lean 4 theorems: the LR driver with a stack of action results equals, for every table/input/recognizer/"
+            "action environment/fuel, the evaluation of the tree the tree-building driver returns "
+            "(C09_deferred_eq_onthefly); about the evaluation model (Model/Actions.lean): arguments in rhs order, named matches "
             "bound by rhs index ('=' the sub-result, '?=' its truthiness), the default result mirrors the tree, and "
             "for EVERY length the built-ins behind +, *, ?, separators return the flat list / empty list / None. "
             "Per case the three implementation routes (actions during parsing; build_tree then call_actions; GLR "
@@ -19,15 +21,14 @@ MANIFEST_ENTRY = {
             "implementation tree, for random action tables (per-rule and per-alternative lists), named matches "
             "and repetition sugar",
     "note": "trusted: Lean kernel; user actions are free term constructors (pure); evaluation order and exceptions "
-            "inside actions are runtime behaviour outside the model; the on-the-fly route is compared, not proved "
-            "equal (the LR driver model is not yet generic in the stack value)",
+            "inside actions are runtime behaviour outside the model; the GLR route is compared, not proved",
     "technique": "Lean 4 proof (induction over repetition chains) + three-route differential + model correspondence",
 }
 
 PROP = "C09"
 LEVEL = "proof"
 THEOREMS = ["C09_collect_plus", "C09_zero_or_more", "C09_optional", "C09_collect_sep_step",
-            "C09_user_action_args", "C09_default_mirrors_tree"]
+            "C09_user_action_args", "C09_default_mirrors_tree", "C09_deferred_eq_onthefly", "C09_onthefly_result"]
 META = {
     "rule": "cases = (grammar incl. sugar and named matches, action table, sentence); non-trivial = sentence whose "
             "tree has >= 3 interior nodes; distinct by (grammar, action table, input)",
